@@ -109,11 +109,31 @@ pub struct ParsedSeg {
     pub bytes_at: usize,
 }
 
-pub fn parse_segment(bytes: &[u8]) -> Result<(Fragment, Vec<String>), String> {
+/// trex defaults (duration, size, flags) of the init segment a fresh muxer of this configuration returns.
+pub fn trex_of(cfg: &FragCfg) -> Option<(u32, u32, u32)> {
+    let probe = FragCase { cfg: cfg.clone(), ops: vec![FragOp::Init] };
+    let ex = exec::run_frag(&probe);
+    let b = match ex.ops.first() {
+        Some(FragRes::Init(b)) => b.clone(),
+        _ => return None,
+    };
+    let tree = reader::parse_tree(&b).ok()?;
+    let mut probs = Vec::new();
+    let m = reader::decode_movie(&b, &tree, &mut probs);
+    m.trex_defaults.first().map(|t| (t.1, t.2, t.3))
+}
+
+pub fn parse_segment(bytes: &[u8], cfg: &FragCfg) -> Result<(Fragment, Vec<String>), String> {
     let tree = reader::parse_tree(bytes).map_err(|e| e.to_string())?;
     let mut probs = Vec::new();
     match reader::decode_fragment(bytes, &tree, &mut probs) {
-        Some(f) => Ok((f, probs)),
+        Some(mut f) => {
+            if f.unresolved() {
+                // rare path: the run leaves something to the init segment's trex defaults
+                f.resolve(trex_of(cfg));
+            }
+            Ok((f, probs))
+        }
         None => Err(format!("not a media segment: {:?}", probs)),
     }
 }
@@ -164,10 +184,13 @@ pub fn c02_eval_frag(case: &FragCase, st: &mut RunStats) -> Vec<Violation> {
                     }
                     Ok(tree) => {
                         let mut probs = Vec::new();
-                        if let Some(f) = reader::decode_fragment(b, &tree, &mut probs) {
+                        if let Some(mut f) = reader::decode_fragment(b, &tree, &mut probs) {
+                            if f.unresolved() {
+                                f.resolve(trex_of(&case.cfg));
+                            }
                             let total: u64 = f.samples.iter().map(|s| s.size.unwrap_or(0) as u64).sum();
                             if f.samples.iter().any(|s| s.size.is_none()) {
-                                probs.push("trun without per-sample sizes".into());
+                                probs.push("sample sizes stated neither per sample nor by a tfhd / trex default".into());
                             } else if f.mdat_size as u64 != 8 + total {
                                 probs.push(format!("mdat size {} but 8 + sum of sample sizes = {}", f.mdat_size, 8 + total));
                             }
@@ -301,7 +324,7 @@ pub fn c10_eval(case: &FragCase, st: &mut RunStats) -> Vec<Violation> {
                         out.push(v("C10", "segment-from-nothing", "", format!("op {}: flush produced a {}-byte segment although nothing was queued", i, b.len())));
                         return out;
                     }
-                    let (f, _probs) = match parse_segment(b) {
+                    let (f, _probs) = match parse_segment(b, &case.cfg) {
                         Ok(x) => x,
                         Err(e) => {
                             out.push(v("C10", "segment-unreadable", normalise(&e), format!("op {}: {}", i, e)));
@@ -443,7 +466,7 @@ pub fn c11_eval(case: &FragCase, st: &mut RunStats) -> Vec<Violation> {
                 }
             },
             (FragOp::Flush, FragRes::Flushed(Some(b))) => {
-                let (f, _) = match parse_segment(b) {
+                let (f, _) = match parse_segment(b, &case.cfg) {
                     Ok(x) => x,
                     Err(_) => return out, // C02/C10's business
                 };
@@ -475,7 +498,7 @@ pub fn c11_eval(case: &FragCase, st: &mut RunStats) -> Vec<Violation> {
                             }
                         }
                         None => {
-                            out.push(v("C11", "sync-flag", "absent", format!("op {}: run has no per-sample flags", i)));
+                            out.push(v("C11", "sync-flag", "absent", format!("op {}: sample {} has no flags: neither per sample, nor first-sample flags, nor a tfhd / trex default", i, k)));
                             return out;
                         }
                     }
@@ -575,7 +598,7 @@ pub fn c16_eval_frag(case: &FragCase, st: &mut RunStats) -> Vec<Violation> {
             }
             (FragOp::Flush, FragRes::Flushed(Some(b))) => {
                 any = true;
-                let (f, _) = match parse_segment(b) {
+                let (f, _) = match parse_segment(b, &case.cfg) {
                     Ok(x) => x,
                     Err(e) => {
                         out.push(v("C16", "box-size", format!("segment:{}", normalise(&e)), format!("media segment: {}", e)));
